@@ -6,6 +6,7 @@ package main
 import (
 	"fmt"
 	"math"
+	"sort"
 	"sync/atomic"
 
 	"github.com/deadsy/sdfx/sdf"
@@ -183,6 +184,16 @@ func main() {
 	for lo := 0; lo <= 4; lo++ {
 		for hi := lo; hi <= 4; hi++ {
 			ints = append(ints, sdf.Interval{float64(lo), float64(hi)})
+		}
+	}
+	// and with end points that are not exactly representable sums of each other (0.1, 0.2, 0.3, 1/3, ...): the
+	// answer is a comparison of end points, no arithmetic may blur a touching or barely overlapping pair
+	// (added after seed C16-9)
+	nd := []float64{0, 0.1, 0.2, 0.1 + 0.2, 0.3, 1.0 / 3, 2.0 / 3, 0.7, 1 - 1.0/3, 1, 1e-9, 1 + 1e-15, 1e15, 1e15 + 1, -0.1, -0.3}
+	sort.Float64s(nd)
+	for i, lo := range nd {
+		for _, hi := range nd[i:] {
+			ints = append(ints, sdf.Interval{lo, hi})
 		}
 	}
 	for _, a := range ints {
